@@ -1,4 +1,7 @@
 import HappyProofs.C15.Crash
+import HappyProofs.C15.Survive
+import HappyProofs.C15.Judge
+import HappyProofs.C14.LsmFinal
 /-!
 # C15 — property theorems (WAL + crash recovery)
 
@@ -61,16 +64,86 @@ theorem trunc_bound_lt_pending (s : St) (q : Nat) (h : q ∈ s.pending ∨ s.nex
   unfold truncBound
   omega
 
-/-! ### full statements that are not proved -/
+/-! ### every workload, sync policy, schedule and crash index
 
-/-- every durable write is either still in the log or in an SSTable of the levels: the invariant
-    that makes `durable_survive_partial` the whole property -/
-def durable_survive_full : Prop :=
-  ∀ (cfg : Cfg) (ops : List (Nat × Pc)) (oracle : List Bool) (sched : List Nat),
-    let y := Sys.run cfg { st := St.init cfg oracle, frames := ops.map fun o => { id := o.1, pc := o.2 } } sched
-    ∀ k seq c, (∃ f ∈ y.frames, f.seq0 = seq ∧ seq ≤ y.st.synced ∧
-        (f.pc = .pWal k c seq ∨ f.pc = .pSync k c seq)) →
-      ∃ e ∈ durableLog y.st, e.key = k ∧ seq ≤ e.seq
+`sysOf cfg oracle ops` is a fresh tree with the operations `ops` not yet started; `sched` is any schedule of
+generator segments; the crash happens after `sched` (so: at any index of any longer schedule,
+`crash_spec_at_every_index`).  Hypotheses: a WAL is configured (any sync policy `p`), at least two levels,
+operation ids and put values pairwise distinct (the judge identifies a write by its value), and flushes
+install in start order (`InOrder`; holds in the engine because all flush writes cost one page). -/
+
+/-- run invariants behind the three theorems below -/
+theorem crash_invariants (cfg : Cfg) (p : Policy) (ops : List (Nat × OKind)) (oracle : List Bool) (sched : List Nat)
+    (hw : cfg.wal = some p) (h2 : 2 ≤ cfg.maxLevels) (hd : DistinctPuts ops)
+    (ho : InOrder cfg (sysOf cfg oracle ops) sched) :
+    LInv cfg (startFor ops) ((sysOf cfg oracle ops).run cfg sched) (logRun cfg (sysOf cfg oracle ops) [] sched) ∧
+    ∃ g, WInv (startFor ops) ((sysOf cfg oracle ops).run cfg sched) (logRun cfg (sysOf cfg oracle ops) [] sched) g :=
+  winv_run hw sched _ [] (linv_sysOf cfg oracle hd h2) ⟨{}, winv_init (sysOf_init cfg oracle ops) _⟩ ho
+
+/-- `durable_survive` + `no_resurrection` + `no_invention`, in terms of the operations of the run: after
+    `crash(); recover_from_crash()` a key reads `some v` only if `v` was written by a started `put k v` that no
+    durable write to `k` (WAL sequence number ≤ `synced_up_to`) began after; it reads `None` only if no started
+    write to `k` is durable, or some started `delete k` is superseded by no durable write -/
+theorem crash_facts_run (cfg : Cfg) (p : Policy) (ops : List (Nat × OKind)) (oracle : List Bool) (sched : List Nat)
+    (hw : cfg.wal = some p) (h2 : 2 ≤ cfg.maxLevels) (hd : DistinctPuts ops)
+    (ho : InOrder cfg (sysOf cfg oracle ops) sched) :
+    CrashFacts (startFor ops) ((sysOf cfg oracle ops).run cfg sched) := by
+  obtain ⟨hL, g, hW⟩ := crash_invariants cfg p ops oracle sched hw h2 hd ho
+  exact crash_facts hw hL hW
+
+/-- `durable_survive`: if some started write to `k` is durable at the crash, the recovered value of `k` is the
+    value of a put (or the absence left by a delete) that no durable write to `k` began after — the key is not
+    lost and not rolled back behind a durable write -/
+theorem durable_survive (cfg : Cfg) (p : Policy) (ops : List (Nat × OKind)) (oracle : List Bool) (sched : List Nat)
+    (hw : cfg.wal = some p) (h2 : 2 ≤ cfg.maxLevels) (hd : DistinctPuts ops)
+    (ho : InOrder cfg (sysOf cfg oracle ops) sched) (k : Key)
+    (w0 : Frame) (hw0 : w0 ∈ ((sysOf cfg oracle ops).run cfg sched).frames) (c0 : Cell) (hb0 : w0.b ≠ none)
+    (hs0 : startFor ops w0.id = .pStart k c0) (hdur : w0.seq0 ≤ ((sysOf cfg oracle ops).run cfg sched).st.synced) :
+    ∃ w ∈ ((sysOf cfg oracle ops).run cfg sched).frames, w.b ≠ none ∧
+      startFor ops w.id = .pStart k (((sysOf cfg oracle ops).run cfg sched).st.crash.recover.abs k) ∧
+      NotSuperseded (startFor ops) ((sysOf cfg oracle ops).run cfg sched) k w := by
+  have hC := crash_facts_run cfg p ops oracle sched hw h2 hd ho
+  cases hx : ((sysOf cfg oracle ops).run cfg sched).st.crash.recover.abs k with
+  | some v => exact hC.some k v hx
+  | none =>
+    rcases hC.none k hx with h | h
+    · exact absurd hdur (h w0 hw0 c0 hb0 hs0)
+    · exact h
+
+/-- `no_resurrection`: a value that comes back after crash + recovery was not overwritten or deleted by a
+    durable write that began after its own write had completed -/
+theorem no_resurrection (cfg : Cfg) (p : Policy) (ops : List (Nat × OKind)) (oracle : List Bool) (sched : List Nat)
+    (hw : cfg.wal = some p) (h2 : 2 ≤ cfg.maxLevels) (hd : DistinctPuts ops)
+    (ho : InOrder cfg (sysOf cfg oracle ops) sched) (k : Key) (v : Nat)
+    (hx : ((sysOf cfg oracle ops).run cfg sched).st.crash.recover.abs k = some v) :
+    ∃ w ∈ ((sysOf cfg oracle ops).run cfg sched).frames, w.b ≠ none ∧ startFor ops w.id = .pStart k (some v) ∧
+      ∀ w' ∈ ((sysOf cfg oracle ops).run cfg sched).frames, w'.id ≠ w.id → ∀ b' c', w'.b = some b' →
+        startFor ops w'.id = .pStart k c' → w'.seq0 ≤ ((sysOf cfg oracle ops).run cfg sched).st.synced →
+        ∀ e, w.e = some e → ¬ e < b' :=
+  (crash_facts_run cfg p ops oracle sched hw h2 hd ho).some k v hx
+
+/-- the model's own crash observations satisfy the whole Spec predicate (`durable_survive`,
+    `no_resurrection`, `no_invention`, `recover_idempotent`), for every workload, sync policy and schedule -/
+theorem crash_spec (cfg : Cfg) (p : Policy) (nkeys : Nat) (ops : List (Nat × OKind)) (oracle : List Bool) (sched : List Nat)
+    (hw : cfg.wal = some p) (h2 : 2 ≤ cfg.maxLevels) (hd : DistinctPuts ops)
+    (ho : InOrder cfg (sysOf cfg oracle ops) sched) :
+    judgeCrash (wObsOf ops ((sysOf cfg oracle ops).run cfg sched)) ((sysOf cfg oracle ops).run cfg sched).st.synced
+      (readsOf nkeys ((sysOf cfg oracle ops).run cfg sched).st.crash.recover)
+      (readsOf nkeys ((sysOf cfg oracle ops).run cfg sched).st.crash.recover.recover)
+      (readsOf nkeys ((sysOf cfg oracle ops).run cfg sched).st.crash.recover.recover.crash.recover) = none := by
+  obtain ⟨hL, g, hW⟩ := crash_invariants cfg p ops oracle sched hw h2 hd ho
+  exact judgeCrash_of_facts cfg nkeys ops _ _ hd hL (crash_facts hw hL hW)
+
+/-- … and so for a crash at every index `i` of the schedule -/
+theorem crash_spec_at_every_index (cfg : Cfg) (p : Policy) (nkeys : Nat) (ops : List (Nat × OKind)) (oracle : List Bool)
+    (sched : List Nat) (hw : cfg.wal = some p) (h2 : 2 ≤ cfg.maxLevels) (hd : DistinctPuts ops)
+    (ho : InOrder cfg (sysOf cfg oracle ops) sched) (i : Nat) :
+    judgeCrash (wObsOf ops ((sysOf cfg oracle ops).run cfg (sched.take i)))
+      ((sysOf cfg oracle ops).run cfg (sched.take i)).st.synced
+      (readsOf nkeys ((sysOf cfg oracle ops).run cfg (sched.take i)).st.crash.recover)
+      (readsOf nkeys ((sysOf cfg oracle ops).run cfg (sched.take i)).st.crash.recover.recover)
+      (readsOf nkeys ((sysOf cfg oracle ops).run cfg (sched.take i)).st.crash.recover.recover.crash.recover) = none :=
+  crash_spec cfg p nkeys ops oracle (sched.take i) hw h2 hd (inOrder_take ho i)
 
 /-! ### non-vacuity -/
 
@@ -83,5 +156,17 @@ example : lastFor 1 (durableLog exSt) none = some (some 6) ∧ exSt.crash.recove
     truncBound exSt = 4 ∧ (5 ∈ exSt.pending ∨ exSt.nextSeq ≤ 5) := by decide
 
 example : (List.range 3).map exSt.crash.recover.recover.abs = (List.range 3).map exSt.crash.recover.abs := by decide
+
+/-- non-vacuity of `crash_spec`: WAL with sync on every write, two writers and a deleter, a flush that truncates
+    the log, a compaction; all hypotheses hold, a sync has completed, the log has been truncated -/
+def exOps : List (Nat × OKind) := [(1, .put 0 7), (2, .del 0), (3, .put 1 9), (4, .put 0 5)]
+def exSched : List Nat := [1, 2, 1, 1, 1, 1, 2, 2, 2, 2, 3, 3, 3, 3, 3, 3, 4, 4]
+def exCfg : Cfg := { memSize := 1, maxLevels := 2, strat := .sizeTiered 2, wal := some .every }
+
+example : exCfg.wal = some .every ∧ 2 ≤ exCfg.maxLevels ∧ DistinctPuts exOps ∧
+    inOrderB exCfg (sysOf exCfg [] exOps) exSched = true ∧
+    1 ≤ ((sysOf exCfg [] exOps).run exCfg exSched).st.synced ∧
+    ((sysOf exCfg [] exOps).run exCfg exSched).st.wal.length < ((sysOf exCfg [] exOps).run exCfg exSched).st.nextSeq - 1 := by
+  refine ⟨rfl, by decide, ⟨by decide, by decide⟩, by decide, by decide, by decide⟩
 
 end HappyModel.C15
